@@ -145,6 +145,11 @@ func cmdCheck(args []string) int {
 	if *tier == "thorough" {
 		timeout = 60000
 	}
+	if s := os.Getenv("VCGO_LIMIT_MS"); s != "" { // development aid
+		if n, err := strconv.Atoi(s); err == nil {
+			timeout = n
+		}
+	}
 
 	// --- generate
 	type job struct {
